@@ -1,5 +1,6 @@
 """./check setup: regenerate all facts, build the Lean library, every harness binary and plz.
-Only CLAIMED checks can fail the setup; work in progress (CLAIMED = False) is built best-effort."""
+Setup is a warm-up: every check rebuilds what it needs itself, so a property whose module or harness does not build is
+reported here as a warning and by its own check as a broken obligation — it must not keep the other checks from running."""
 import glob, os, re, sys, importlib
 from . import core
 
@@ -23,6 +24,7 @@ def load_specs():
 
 def main():
     rc = 0
+    failed = []
     specs = load_specs()
     for spec, claimed in specs:
         tag = spec["id"] + ("" if claimed else " (unclaimed)")
@@ -36,16 +38,18 @@ def main():
         r, out = core.lake_build(sorted(set(mods)))
         if r != 0:
             print(f"{tag}: lake build failed\n{out[-1500:]}")
-            rc |= 1 if claimed else 0
+            failed.append(tag + " (lean)")
         if spec.get("harness"):
             r, out, _ = core.build_harness(spec["harness"])
             if r != 0:
                 print(f"{tag}: harness build failed\n{out[-1500:]}")
-                rc |= 1 if claimed else 0
+                failed.append(tag + " (harness)")
         print(f"{tag}: setup ok" if r == 0 else f"{tag}: setup FAILED")
     if any(s.get("needs_plz") for s, _ in specs):
         r, out, _ = core.build_plz()
         print("plz:", r)
         if r != 0:
             print(out[-2000:]); rc = 1
+    if failed:
+        print("WARNING: not built during setup (their own checks will report it):", ", ".join(failed))
     return rc
